@@ -507,5 +507,26 @@ def r03_8(ctx):
                  lambda i, s_: f"Symbol.str_value/cache store #{i + 1} happens after _write_to_conf was assigned",
                  "the value is cached on a path that has not (re)computed _write_to_conf: config_string keeps using the flag of the previous evaluation")
 
+def r03_9(ctx):
+    """R03.9 what an assignment records does not depend on the configuration it arrives in: in Symbol.set_value / Choice.set_value the
+    stores of the user value, the user pick and the per-load marks are reached under tests of the arguments and of stored state only,
+    never of visibility / current value / current selection - otherwise the same assignments in another order (or after a replacing
+    load) leave different user state, and incremental evaluation differs from a fresh instance."""
+    from .common import stores_independent_of_evaluation
+    n = stores_independent_of_evaluation(ctx, [f"{CORE}:Symbol.set_value", f"{CORE}:Choice.set_value"], ("_user_value", "_user_selection", "_was_set"),
+                                         "the recorded user state depends on the order of the assignments")
+    if n < 6:
+        raise AnalysisError(f"only {n} user-state stores found in the setters")
+
+
+def r03_10(ctx):
+    """R03.10 a replacing load leaves the state a fresh instance would have after loading the same file: the per-load marks are reset
+    before the lines are read and whatever the file did not set is unset afterwards, for symbols and for choices, decided on the
+    per-load mark alone (C05 R05.7a)."""
+    from . import c05
+    from .common import delegate
+    delegate(ctx, c05.r05_7, lambda c: "replacing load" in c or "is reset over" in c)
+
+
 def rules():
-    return [("R03.8", r03_8, 1), ("R03.7", r03_7, 3), ("R03.1", r03_1, 14), ("R03.2", r03_2, 9), ("R03.3", r03_3, 7), ("R03.4", r03_4, 4), ("R03.5", r03_5, 8), ("R03.6", r03_6, 5)]
+    return [("R03.10", r03_10, 4), ("R03.9", r03_9, 6), ("R03.8", r03_8, 1), ("R03.7", r03_7, 3), ("R03.1", r03_1, 14), ("R03.2", r03_2, 9), ("R03.3", r03_3, 7), ("R03.4", r03_4, 4), ("R03.5", r03_5, 8), ("R03.6", r03_6, 5)]
